@@ -1,6 +1,7 @@
 import St4sd.Lemmas.C13
 import St4sd.Lemmas.C13Prod
 import St4sd.Lemmas.C13Sub
+import St4sd.Lemmas.C13Start
 /-!
 # C13 — A repeating observer sees its producers' final output and then stops
 
@@ -159,6 +160,47 @@ theorem stop_implies_final_output_seen_partial (cfg : Cfg) (hr : 1 ≤ cfg.retri
     have := d2b e (by simp [hl])
     omega
 
+private theorem invF_all (cfg : Cfg) (h : List Op) : InvF cfg (exec cfg h) :=
+  run_induction (InvF cfg) (fun s op hs => invF_step cfg s op hs) h _ (invF_init cfg)
+
+/-- Clause 2b/3, the stop "after the first such execution that succeeds": in EVERY history (every configuration,
+with and without the repairs) in which the engine stops itself by `success`, the newest entry of the execution log
+is an execution that was really STARTED (the task generator returned a Task object - a launch that raises is an
+attempt, not an execution), in a poll that sampled the producers as finished, launched at or after the instant of
+the producers' last output.  What the bookkeeping judges is the attempt of the poll it belongs to: a task left
+over from an earlier poll never makes a failed launch count as a success. -/
+theorem success_stop_has_started_execution_after_final_output (cfg : Cfg) (h : List Op)
+    (hs : (exec cfg h).cause = some .success) :
+    ∃ e, (exec cfg h).execLog.head? = some e ∧ e.started = true ∧ e.pdws = true ∧
+      (exec cfg h).lastOutput ≤ e.launch ∧ (exec cfg h).prodDone = true := by
+  have hF := invF_all cfg h
+  simp only [InvF] at hF
+  obtain ⟨_, _, _, _, _, _, f7, _⟩ := hF
+  obtain ⟨_, _, hp, h1, h2, h3⟩ := f7 hs
+  cases hl : (exec cfg h).execLog with
+  | nil => simp [headStarted, hl] at h1
+  | cons e es =>
+    refine ⟨e, by simp, ?_, ?_, ?_, hp⟩
+    · simpa [headStarted, hl] using h1
+    · simpa [headPdws, hl] using h2
+    · simpa [headLaunch, hl] using h3
+
+/-- … "otherwise when its configured retries are used up": a stop by `retries` happens only with no retry left. -/
+theorem retries_stop_only_when_used_up (cfg : Cfg) (h : List Op)
+    (hs : (exec cfg h).cause = some .retries) : (exec cfg h).retries = 0 :=
+  (invF_all cfg h).2.2.2.2.2.2.2 hs
+
+/-- Both together: whenever the engine has stopped itself with retries left, it has started an execution after the
+producers' last output appeared (and that execution is the newest one). -/
+theorem self_stop_with_retries_left_has_started_execution (cfg : Cfg) (h : List Op)
+    (hs : selfCause (exec cfg h)) (hr : 0 < (exec cfg h).retries) :
+    ∃ e ∈ (exec cfg h).execLog, e.started = true ∧ (exec cfg h).lastOutput ≤ e.launch := by
+  rcases hs with hs | hs
+  · obtain ⟨e, he, h1, _, h3, _⟩ := success_stop_has_started_execution_after_final_output cfg h hs
+    exact ⟨e, List.mem_of_mem_head? he, h1, h3⟩
+  · have := retries_stop_only_when_used_up cfg h hs
+    omega
+
 /-- Clause 3 (for the repaired code): after the producers finished the engine's action is started as a
 normal poll at most `repeatRetries + 1` times (`pollsFin` counts the polls that begin with the
 producers-finished flag set); every such poll reaches the stop/retry bookkeeping (`books`), and as long as
@@ -232,6 +274,17 @@ def histRaises : List Op :=
 example : let s := exec cfgNonRep histRaises
     s.cause = some .retries ∧ s.pc = .stopped ∧ s.pollsFin = 4 ∧ s.books = 4 ∧ s.retries = 0 ∧
     s.execLog.length = 5 := by decide
+
+/-- an execution succeeds while the producer still runs; more output and the notification; the first launch after
+it RAISES, the next one succeeds: the failed launch used up a retry, the engine stopped by `success` only after the
+started execution (newest log entry started, the one before it not) -/
+def histLaunchFailsAfterEarlierSuccess : List Op :=
+  (runScript cfgFixed (init cfgFixed)
+    [{ it0 with s0 := [.out 0] }, { it0 with gap := [.out 0, .fin], out := .raised }, { it0 with gap := [.adv] }, it0]).2
+
+example : let s := exec cfgFixed histLaunchFailsAfterEarlierSuccess
+    s.cause = some .success ∧ s.retries = 2 ∧ s.pc = .stopped ∧
+    s.execLog.map (·.started) = [true, false, true] ∧ s.execLog.map (·.pdws) = [true, true, false] := by decide
 
 /-- three producer entries: component 5 (same stage, listed FIRST, slow), component 2 of an earlier stage,
 component 7 (same stage, listed LAST, fast).  Output of 7 alone (several polls) launches nothing; once 5 has
